@@ -88,7 +88,8 @@ namespace sqf::runtime
         size_t m_parent_inherited_id;
         size_t m_parent_logical_id;
         size_t m_container_id;
-        std::string_view m_name;
+        // a copy: a view into container::name dangles as soon as a later load makes m_containers grow
+        std::string m_name;
 
         config(size_t logical, size_t container_id, size_t inherited, std::string_view name) :
             m_parent_inherited_id(inherited),
